@@ -15,7 +15,7 @@ import (
 func LockupPrecompile() common.Address { return vm.LockupContractAddresses[[2]byte{0, 0}] }
 
 // forwarderRuntime is a contract that forwards its calldata to the lockup precompile (so that it is the
-// "owner contract" of coinbase lockups) and returns the call's success flag as a 32-byte word.
+// "owner contract" of coinbase lockups); it reverts when the precompile refuses and otherwise logs twice and returns 1.
 func forwarderRuntime() []byte {
 	pre := LockupPrecompile().Bytes()
 	code := []byte{
@@ -32,8 +32,19 @@ func forwarderRuntime() []byte {
 	}
 	code = append(code, pre...)
 	code = append(code,
-		0x5a,       // GAS
-		0xf1,       // CALL
+		0x5a, // GAS
+		0xf1, // CALL
+		0x80, // DUP1
+	)
+	// a refused call makes the whole transaction fail (status 0 on the receipt), as a careful owner contract would
+	okPC := len(code) + 3 + 5
+	code = append(code,
+		0x60, byte(okPC), // PUSH1 ok
+		0x57,       // JUMPI
+		0x60, 0x00, // PUSH1 0
+		0x60, 0x00, // PUSH1 0
+		0xfd,       // REVERT
+		0x5b,       // ok: JUMPDEST
 		0x60, 0x00, // PUSH1 0
 		0x52,       // MSTORE
 		0x60, 0xa1, // topic
